@@ -57,9 +57,15 @@ pub fn get_literals_details(hir: &Hir) -> LiteralsDetails {
             };
             // the post hir is not needed if the hir ends with the literal
             // (ie end_position is None)
+            //
+            // The whole hir can only be used if the literals start at the beginning of
+            // the hir. This is not the case for an alternation placed at the beginning
+            // of the hir, if only the end of some of its branches are used to build
+            // the literals: for example, in `(a.b|cd)e.f`, the literals `be` and `cde`
+            // can be extracted, and the post hir must then be `(b|cd)e.f`.
             let post_hir = if part_is_end_of_regex(end_part) {
                 None
-            } else if start_part.start_position == 0 {
+            } else if part_is_start_of_regex(start_part) {
                 Some(hir.clone())
             } else {
                 Some(visit(hir, PrePostExtractor::new(start_part, false)))
@@ -1170,7 +1176,7 @@ mod tests {
             "(bcd|.ef)g.h",
             &["bcdg", "efg"],
             "(bcd|.ef)g",
-            "(bcd|.ef)g.h",
+            "(bcd|ef)g.h",
         );
         test("a(bcd|.ef)g", &["bcdg", "efg"], "a(bcd|.ef)g", "");
         test(
